@@ -1,5 +1,8 @@
 /-
-  C17 — the predicates on diagrams: monogamy test, degree queries (and acyclicity, see the end).
+  C17 — the predicates on diagrams: acyclicity test, monogamy test, degree queries.
+
+  "The acyclicity test is true iff no node can reach itself by following hyperedges from a source
+   node to a target node;" (`isAcyclic_spec`, for every lawful backend, via the Kahn library)
 
   "the monogamy test is true iff both interface maps are injective and every node has in-degree 1,
    or in-degree 0 and is an input, and out-degree 1, or out-degree 0 and is an output; degree
@@ -13,6 +16,7 @@
   clause: there is no arithmetic whose overflow behaviour could differ.
 -/
 import OHVerif.Lemmas.Predicates
+import OHVerif.Lemmas.Adjacency
 
 namespace OH.C17
 
@@ -140,5 +144,60 @@ theorem degree_toPlain (f : OHG O A) (hwf : f.wf = true) (v : Nat) (hv : v < f.h
 example : d3.h.wf = true ∧ d3.h.inDegree 1 = .ok 4 ∧ d3.h.outDegree 1 = .ok 0 ∧
     d3.h.outDegree 0 = .ok 4 ∧ d3.h.inDegree 2 = .panic "in_degree:assert" ∧
     d1.h.wf = true ∧ d1.h.inDegree 3 = .ok 0 ∧ d1.h.outDegree 3 = .ok 0 := by decide
+
+/-! ## acyclicity -/
+
+theorem natSum_eq_zero_iff (l : List Nat) : l.sum = 0 ↔ ∀ x ∈ l, x = 0 := by
+  induction l with
+  | nil => simp
+  | cons a l ih => simp only [List.sum_cons, List.mem_cons, forall_eq_or_imp, ← ih]; omega
+
+/-- `is_acyclic` returns an answer (no panic, not `none`) for every lawful backend and every
+    well-formed hypergraph — including the empty one, isolated nodes, repeated incidences and
+    parallel edges — and the answer is `true` iff no node reaches itself along
+    (source node of a hyperedge) → (target node of the same hyperedge) steps. -/
+theorem isAcyclic_spec (B : Backend) (hB : B.Lawful) (h : HG O A) (hwf : h.wf = true) :
+    ∃ b, Graph.isAcyclic B h = .ok b ∧ (b = true ↔ Acyclic (plainOf h)) := by
+  obtain ⟨a, ha, hawf, halen, _, hdep⟩ := Graph.nodeAdjacency_spec B hB h hwf
+  have hrel : nodeStep (plainOf h) = Graph.adjDep a := by
+    funext v w; exact propext (hdep v w).symm
+  have hhead : ∀ v, Relation.TransGen (Graph.adjDep a) v v → v < a.len := by
+    intro v hv
+    obtain ⟨w, hw, _⟩ := Relation.TransGen.head'_iff.1 hv
+    exact Graph.adjDep_lt_left hw
+  unfold Graph.isAcyclic Acyclic
+  rw [hrel]
+  by_cases h0 : h.w.length = 0
+  · rw [if_pos h0]
+    refine ⟨true, rfl, ?_⟩
+    simp only [true_iff]
+    rintro ⟨v, hv⟩
+    have := hhead v hv
+    omega
+  · rw [if_neg h0, ha]
+    obtain ⟨order, unv, hk, _, hlu, hall⟩ := Graph.kahn_spec B hB a hawf
+    simp only [Res.ok_bind, hk, Res.pure_eq]
+    refine ⟨_, rfl, ?_⟩
+    rw [beq_iff_eq, Prim.sum_eq, natSum_eq_zero_iff]
+    constructor
+    · rintro hz ⟨v, hv⟩
+      have hlt := hhead v hv
+      have h1 := (hall v hlt).1.2 ⟨v, hv, Relation.ReflTransGen.refl⟩
+      have := hz 1 (List.mem_of_getElem? h1)
+      omega
+    · intro hac x hx
+      obtain ⟨y, hy, rfl⟩ := List.getElem_of_mem hx
+      have hy' : y < a.len := hlu ▸ hy
+      have hno : ¬ OnOrAfterCycle (Graph.adjDep a) y := fun ⟨c, hc, _⟩ => hac ⟨c, hc⟩
+      have := (hall y hy').2.1.2 hno
+      rw [List.getElem?_eq_getElem hy] at this
+      exact Option.some.inj this
+
+example : vecBackend.Lawful := vecBackend_lawful
+
+/-- a cyclic hypergraph with a repeated incidence and an isolated node (nodes 0,1,2; edges
+    `[0,0] → [1]`, `[1] → [0]`): well-formed -/
+example : (⟨⟨⟨[2, 1], 4⟩, ⟨[0, 0, 1], 3⟩⟩, ⟨⟨[1, 1], 3⟩, ⟨[1, 0], 3⟩⟩, [7, 8, 9], [5, 6]⟩ :
+    HG Nat Nat).wf = true := by decide
 
 end OH.C17
